@@ -5,7 +5,7 @@ Executes the MIR bodies dumped from /repo's working tree over symbolic inputs.  
 models registered in mirsym/models (the trusted base, listed in evidence).  Bounds (steps, frames, loop
 iterations) are enforced: hitting one raises Inconclusive, never a verdict.
 """
-import re, itertools, time
+import re, itertools, time, os, sys
 import z3
 from .mirparse import (parse_mir, split_top, match_paren, strip_generics, turbofish, eval_rust_str,
                        eval_rust_char, is_qself)
@@ -69,6 +69,36 @@ class Outcome:
         return f'Outcome({self.kind},{self.value!r})'
 
 
+class IncSolver:
+    """z3 solver kept in step with the path condition of a depth-first exploration: the asserted stack is popped back to
+    the common prefix (object identity of the conjuncts) and the rest pushed, instead of passing the whole path condition
+    as assumptions on every feasibility check."""
+    def __init__(self, keep=None):
+        self.s, self.stack, self.nax, self.keep = z3.Solver(), [], 0, keep
+        self.nkept = 0
+
+    def check(self, pc, axioms, timeout):
+        if len(axioms) != self.nax:
+            self.s, self.stack, self.nax = z3.Solver(), [], len(axioms)
+            if axioms:
+                self.s.add(*axioms)
+        st, n, m = self.stack, 0, min(len(self.stack), len(pc))
+        while n < m and st[n] is pc[n]:
+            n += 1
+        if n < len(st):
+            self.s.pop(len(st) - n); del st[n:]
+        keep = self.keep
+        for c in pc[n:]:
+            self.s.push(); st.append(c)
+            if keep is None or keep(c):
+                self.s.add(c)
+        self.s.set('timeout', timeout)
+        return self.s.check()
+
+
+PROGRESS = int(os.environ.get('VERIF_PROGRESS', '0') or 0)
+
+
 class Engine:
     def __init__(self, N=32, max_steps=400000, max_frames=80, loop_bound=None, timeout_ms=60000):
         self.funcs = {}        # full name -> [Func]   (full name = crate::path)
@@ -77,7 +107,8 @@ class Engine:
         self.crates = []
         self.src = SrcIndex()
         self.N = N
-        self.solver = z3.Solver()
+        self.solver = IncSolver()
+        self.light_solver = IncSolver(self._is_light); self._light_cache = {}
         self.timeout_ms = timeout_ms
         self.feas_timeout_ms = 300
         self.feas_mode = 'budget'
@@ -149,8 +180,23 @@ class Engine:
             return True
         self.stats['solver_checks'] += 1
         t = time.time()
-        self.solver.set('timeout', self.timeout_ms if strict else self.feas_timeout_ms)
-        r = self.solver.check(*pc, *self.axioms)
+        # stage 1: the array- and UF-free conjuncts alone (a subset: unsat here is unsat for the whole path condition)
+        if True:
+            if self.light_solver.check(pc, (), 500) == z3.unsat:
+                self.stats['solver_s'] += time.time() - t
+                self.stats['light_unsat'] = self.stats.get('light_unsat', 0) + 1
+                return False
+        if strict:
+            # strict verdicts come from a fresh non-incremental solver (full preprocessing, full budget)
+            s = z3.Solver(); s.set('timeout', self.timeout_ms)
+            r = s.check(*pc, *self.axioms)
+        elif getattr(self, 'feas_fresh', False):
+            # one-shot solver: z3's full preprocessing + bit-blasting pipeline (array-free string harnesses decide fast here)
+            s = z3.Solver(); s.set('timeout', self.feas_timeout_ms)
+            s.add(*pc); s.add(*self.axioms)
+            r = s.check()
+        else:
+            r = self.solver.check(pc, self.axioms, self.feas_timeout_ms)
         self.stats['solver_s'] += time.time() - t
         if r == z3.unknown:
             if strict:
@@ -158,6 +204,29 @@ class Engine:
             self.stats['feas_unknown'] = self.stats.get('feas_unknown', 0) + 1
             return True
         return r == z3.sat
+
+    def _is_light(self, c):
+        if isinstance(c, bool):
+            return True
+        k = id(c)
+        r = self._light_cache.get(k)
+        if r is not None:
+            return r[1]
+        if True:
+            r, seen, stack = True, set(), [c]
+            while stack:
+                if not z3.is_expr(stack[-1]) or z3.is_quantifier(stack[-1]):
+                    r = False; break
+                e = stack.pop()
+                i = e.get_id()
+                if i in seen:
+                    continue
+                seen.add(i)
+                if len(seen) > 400 or z3.is_array_sort(e) or (z3.is_app(e) and e.num_args() > 0 and e.decl().kind() == z3.Z3_OP_UNINTERPRETED):
+                    r = False; break
+                stack.extend(e.children())
+            self._light_cache[k] = (c, r)     # keeps c alive, so id(c) stays unique
+        return r
 
     def const_str(self, b, is_str=True):
         key = (b, is_str)
@@ -805,6 +874,8 @@ class Engine:
             try:
                 while st.result is None:
                     st.steps += 1; self.stats['steps'] += 1
+                    if PROGRESS and self.stats['steps'] % PROGRESS == 0:
+                        print(f"[progress] steps={self.stats['steps']} paths={self.stats['paths']} work={len(work)} pc={len(st.pc)} stack={[fr.fn.name[-40:] for fr in st.frames[-6:]]}", file=sys.stderr, flush=True)
                     if st.steps > self.max_steps:
                         raise Inconclusive('step budget exceeded on a feasible path (bound too small)')
                     forks = self.step(st, base_depth)
@@ -1208,7 +1279,9 @@ class Engine:
                 targs = re.match(r'^\w+(?:<(.*)>)?$', tr.split('::')[-1] if '<' not in tr else tr[tr.index(tr.split('<')[0].split('::')[-1]):])
                 ta = norm_ty(targs.group(1)) if targs and targs.group(1) else None
                 # heuristics per well-known trait shape
-                if sig_args and (sig_args[0] == xs or sig_args[0] == '&' + xs or sig_args[0] == '&mut ' + xs):
+                if sig_args and (sig_args[0] == '&' + xs or sig_args[0] == '&mut ' + xs):
+                    sc += 5      # `&self` of exactly this Self (beats `self` of an impl for the referent, e.g. str vs &str)
+                elif sig_args and sig_args[0] == xs:
                     sc += 4
                 if sig_ret == xs or sig_ret.startswith(xs):
                     sc += 3
@@ -1233,7 +1306,7 @@ class Engine:
             if all(b.blocks == best[0].blocks for b in best):
                 best = best[:1]
         if len(best) != 1:
-            raise Inconclusive(f'ambiguous overload for {callee}: {len(best)} bodies score {score}')
+            raise Inconclusive(f'ambiguous overload for {callee}: {len(best)} bodies score {score}: ' + ' | '.join(b.name[-60:] + str([t for _, t in b.args]) for b in best[:4]))
         self.parse_cache[key] = best[0]
         return best[0]
 
@@ -1460,7 +1533,10 @@ def cmp_ty(t):
     t = re.sub(r"'\w+\s*", '', t)
     t = re.sub(r'\b(?:[a-z_][a-z0-9_]*::)+', '', t)
     t = re.sub(r'\bmut ', 'mut~', t)
-    return t.replace(' ', '').replace('mut~', 'mut ')
+    t = t.replace(' ', '').replace('mut~', 'mut ')
+    # lifetime-only argument lists (`Iter<'_>`) and leading / trailing holes left by removed lifetimes
+    t = t.replace('<,', '<').replace(',>', '>').replace('<>', '')
+    return t
 
 
 def ty_unifies(pattern, actual):
